@@ -38,7 +38,7 @@ func init() {
 	for _, n := range simhook.ProbeNames {
 		pn = append(pn, n)
 	}
-	pn = append(pn, "same-type-first-used-by-2+-tasks", "type-nested-in-another-tasks-type", "recursive-type", "map-field-type(proto structPool)", "anymap-of-fresh-types", "ops", "typeof-identity-checked", "result-stability-checked", "steady-state-rechecked", "corrupted-input-ops", "case-changed-keys", "marshal-output>64KiB", "marshal-of-a-map-with-127..300-keys", "raw-messages-in-a-reused-buffer", "caches-prewarmed-with-many-types")
+	pn = append(pn, "same-type-first-used-by-2+-tasks", "type-nested-in-another-tasks-type", "recursive-type", "map-field-type(proto structPool)", "anymap-of-fresh-types", "ops", "typeof-identity-checked", "result-stability-checked", "steady-state-rechecked", "corrupted-input-ops", "case-changed-keys", "marshal-output>64KiB", "marshal-of-a-map-with-127..300-keys", "raw-messages-in-a-reused-buffer", "read-only-input-shared-by-several-calls", "writes-behind-a-window-being-parsed", "caches-prewarmed-with-many-types")
 	core.Register(&core.Property{
 		ID: "C09", Level: "exploration", Engine: "sched", Race: true, Sched: true,
 		Quick: 60000, Thorough: 3000000,
@@ -84,11 +84,12 @@ const (
 	opThriftMarshal
 	opThriftUnmarshal
 	opJSONMarshalRawInPlace
+	opWriteBehindInput
 	numOps
 )
 
 var opNames = []string{"json.Marshal", "json.Append", "json.Unmarshal", "json.Parse", "json.Encoder.Encode", "json.Decoder.Decode", "json.Tokenizer", "json.Marshal(map[string]any of fresh types)", "json.Tokenizer(error, Reset, reuse)",
-	"proto.Marshal", "proto.Size", "proto.Unmarshal", "proto.MarshalTo", "proto.TypeOf", "thrift.Marshal", "thrift.Unmarshal", "json.Marshal(RawMessage in the caller's reused buffer)"}
+	"proto.Marshal", "proto.Size", "proto.Unmarshal", "proto.MarshalTo", "proto.TypeOf", "thrift.Marshal", "thrift.Unmarshal", "json.Marshal(RawMessage in the caller's reused buffer)", "caller writes behind the window another call is parsing"}
 
 type c09Op struct {
 	kind    int
@@ -110,6 +111,10 @@ type c09Op struct {
 	// marshalled from there as a json.RawMessage
 	arena  []byte
 	rawDoc []byte
+	// spare is the caller's memory behind the window op.input; target is the
+	// operation whose spare an opWriteBehindInput writes to
+	spare  []byte
+	target *c09Op
 }
 
 type c09Res struct {
@@ -169,6 +174,11 @@ func (op *c09Op) exec() (res c09Res) {
 	case opJSONMarshalAnyMap:
 		b, err := json.Marshal(op.vals)
 		res.out, res.err = ownSpare(b), errStr(err)
+	case opWriteBehindInput:
+		// the caller goes on filling its buffer behind the window it handed out
+		for i := range op.target.spare {
+			op.target.spare[i] = "\"x]}"[i%4]
+		}
 	case opJSONMarshalRawInPlace:
 		for i := range op.rawDoc {
 			op.arena[i] = op.rawDoc[i]
@@ -285,6 +295,10 @@ func ownSpare(b []byte) []byte {
 		ext[i] = 0xEE
 	}
 	return ext
+}
+
+func isJSONDecode(k int) bool {
+	return k == opJSONUnmarshal || k == opJSONParse || k == opJSONDecoder || k == opJSONTokenizer
 }
 
 var c09WarmTypes []reflect.Type
@@ -497,7 +511,15 @@ func c09MakeOp(t *tape.Tape, ty *simType, pool []*simType) *c09Op {
 			if op.kind == opJSONParse && t.Chance(1, 3) {
 				op.pflags = json.DontMatchCaseInsensitiveStructFields
 			}
-			op.input = b
+			if op.kind == opJSONParse && t.Chance(1, 3) {
+				op.pflags |= []json.ParseFlags{json.DontCopyString, json.ZeroCopy, json.DontCopyRawMessage | json.DontCopyNumber}[t.Intn(3)]
+			}
+			// the input is a window into a larger buffer of the caller's: what lies
+			// behind it (a closing quote first) is the caller's to write to
+			buf := make([]byte, len(b)+len(c17Behind))
+			copy(buf, b)
+			copy(buf[len(b):], c17Behind)
+			op.input, op.spare = buf[:len(b)], buf[len(b):]
 		case opJSONMarshalAnyMap:
 			op.vals = map[string]any{}
 			n := t.Range(1, 3)
@@ -685,6 +707,9 @@ func runC09(r *core.Run) {
 		maxOps = 7
 	}
 	tasks := make([][]*c09Op, ntasks)
+	lastDecode := map[*simType]*c09Op{}
+	var spareTargets []*c09Op
+	spareTaken := map[*byte]bool{}
 	rawTheme := t.Chance(1, 25)
 	arenas := make([][]byte, ntasks)
 	for i := range arenas {
@@ -721,6 +746,20 @@ func runC09(r *core.Run) {
 				op.rawDoc = doc
 				r.Probe("raw-messages-in-a-reused-buffer")
 			}
+			// some calls share one read-only input (the same bytes, the same memory)
+			if isJSONDecode(op.kind) && !op.corrupt {
+				if prev := lastDecode[ty]; prev != nil && t.Chance(1, 3) {
+					op.input, op.spare = prev.input, prev.spare
+					r.Probe("read-only-input-shared-by-several-calls")
+				} else {
+					lastDecode[ty] = op
+				}
+				if op.spare != nil && !spareTaken[&op.spare[0]] && t.Chance(1, 4) {
+					// one writer per window, and no other access of the harness to it
+					spareTaken[&op.spare[0]] = true
+					spareTargets = append(spareTargets, op)
+				}
+			}
 			if op.corrupt {
 				r.Probe("corrupted-input-ops")
 			}
@@ -742,6 +781,15 @@ func runC09(r *core.Run) {
 			r.SigAdd(op.String())
 			r.SigAdd(fmt.Sprint(t.Len()))
 		}
+	}
+	// for some windows, another task writes behind them at some point of its script
+	for _, tg := range spareTargets {
+		i := t.Intn(ntasks)
+		at := t.Intn(len(tasks[i]) + 1)
+		wop := &c09Op{kind: opWriteBehindInput, ty: tg.ty, target: tg}
+		tasks[i] = append(tasks[i][:at:at], append([]*c09Op{wop}, tasks[i][at:]...)...)
+		nops++
+		r.Probe("writes-behind-a-window-being-parsed")
 	}
 	r.ProbeN("ops", int64(nops))
 	for ty, u := range usedBy {
